@@ -9,11 +9,11 @@ package main
 // to one list of placements with canonical offsets (constant + sorted symbolic lengths).
 
 import (
-	"regexp"
 	"fmt"
 	"go/constant"
 	"go/token"
 	"go/types"
+	"regexp"
 	"sort"
 	"strconv"
 	"strings"
